@@ -270,16 +270,16 @@ class Eval:
     # ------------------------------------------------------------------ definitions
     def _def(self, d, depth):
         if d[1] == 'term':
-            return self._call(d[2], depth)
+            return self._call(d[2], depth, d[0])
         return self.rv(d[2], depth, d[0])
 
     def rv(self, rv, depth=12, at=None):
         k = rv[0]
         g = self.g
         if k == 'use':
-            return self.val(rv[1], None, depth)
+            return self.val(rv[1], at, depth)
         if k == 'cast':
-            src = self.val(rv[2], None, depth)
+            src = self.val(rv[2], at, depth)
             sty, tty = g.strs[rv[3]], g.strs[rv[4]]
             tr = type_range(tty)
             if src is None:
@@ -292,7 +292,7 @@ class Eval:
         if k == 'bin':
             return self._bin(rv[1], rv[2], rv[3], g.strs[rv[4]], depth, at)
         if k == 'un':
-            a = self.val(rv[2], None, depth)
+            a = self.val(rv[2], at, depth)
             t = g.strs[rv[3]]
             if rv[1] == 'Neg' and a is not None:
                 return clamp((-a[1], -a[0]), t)
@@ -318,7 +318,7 @@ class Eval:
         r = math_bin(op, a, b, ty)
         return clamp(r, ty)
 
-    def _call(self, t, depth):
+    def _call(self, t, depth, at=None):
         f = t['f']
         name = f.get('name')
         path = f.get('path', '')
@@ -330,13 +330,13 @@ class Eval:
         if f.get('trait') == 'read::reader::Reader' and name == 'len':
             return (0, 2**63 - 1)
         if path in ('core::convert::From::from', 'core::convert::Into::into') and args:
-            a = self.val(args[0], None, depth)
+            a = self.val(args[0], at, depth)
             return meet(tr, a) if a is not None else tr
         if name in WIDEN_FNS and f.get('trait') == 'read::reader::ReaderOffset' and args:
-            a = self.val(args[0], None, depth)
+            a = self.val(args[0], at, depth)
             return meet(meet(tr, type_range(WIDEN_FNS[name])), a)
         if name == 'into_u64' and args:
-            a = self.val(args[0], None, depth)
+            a = self.val(args[0], at, depth)
             return meet(tr, a)
         if name in ('len',) and ('slice' in path or 'Vec' in path or 'vec' in path or 'str' in path):
             return (0, 2**63 - 1)
@@ -345,8 +345,8 @@ class Eval:
             b = bits_of(aty) if aty else None
             return (0, b if b else 128)
         if name in ('min', 'max') and len(args) == 2 and ('cmp' in path or 'Ord' in path):
-            a = self.val(args[0], None, depth)
-            b = self.val(args[1], None, depth)
+            a = self.val(args[0], at, depth)
+            b = self.val(args[1], at, depth)
             if a is not None and b is not None:
                 if name == 'min':
                     return (min(a[0], b[0]), min(a[1], b[1]))
@@ -355,7 +355,7 @@ class Eval:
         if name in ('wrapping_add', 'wrapping_sub', 'wrapping_mul', 'wrapping_neg', 'wrapping_shl', 'wrapping_shr'):
             return tr
         if name in ('saturating_sub',) and len(args) == 2:
-            a = self.val(args[0], None, depth)
+            a = self.val(args[0], at, depth)
             if a is not None and tr is not None:
                 return (tr[0], a[1])
             return tr
